@@ -71,7 +71,7 @@ pub(crate) mod verif_l2_records {
         rec(31, r, m, 0)
     }
 
-    //@ob id=L2.record.ext.dispatch flags=noassert props=C07,C08,C09,C11,C19 tier=quick kind=harness fns=downlink/extended/update.rs:Ext::update draw=frame28
+    //@ob id=L2.record.ext.dispatch flags=noassert props=C07,C08,C09,C11,C19,C01 tier=quick kind=harness fns=downlink/extended/update.rs:Ext::update draw=frame28
     //@region Ext::from_message for all 112-bit frames: df, address (get_icao), CA and (type code, subtype) recorded before exactly the record handler of the type code runs (1-4, 5-18, 19, 20-22, 31; none otherwise); every other field of the fresh record empty
     #[kani::proof]
     #[kani::unwind(90)]
@@ -120,7 +120,7 @@ pub(crate) mod verif_l2_records {
         r
     }
 
-    //@ob id=L2.record.ext.tc1_4 flags=noassert props=C07,C11,C19 tier=quick kind=harness fns=downlink/extended/update.rs:update_mt_1_4 draw=frame28
+    //@ob id=L2.record.ext.tc1_4 flags=noassert props=C07,C11,C19,C01 tier=quick kind=harness fns=downlink/extended/update.rs:update_mt_1_4 draw=frame28
     //@region TC1-4 record handler on a fresh record: callsign decoded from this frame, category = (type code, subtype); nothing else
     #[kani::proof]
     #[kani::unwind(34)]
@@ -138,7 +138,7 @@ pub(crate) mod verif_l2_records {
         kani::cover!(true, "reach_end");
     }
 
-    //@ob id=L2.record.ext.tc5_18 flags=noassert props=C05,C08,C11,C19 tier=quick kind=harness fns=downlink/extended/update.rs:update_mt_5_18 draw=frame28
+    //@ob id=L2.record.ext.tc5_18 flags=noassert props=C05,C08,C11,C19,C01 tier=quick kind=harness fns=downlink/extended/update.rs:update_mt_5_18 draw=frame28
     //@region position record handler on a fresh record, all frames x TC5..18 x df: CPR triple; TC5-8 ground movement + ground track (+ source marks); TC9-18 altitude(frame, df) + surveillance status; nothing else (in particular no altitude for a surface position)
     #[kani::proof]
     #[kani::unwind(34)]
@@ -165,7 +165,7 @@ pub(crate) mod verif_l2_records {
         kani::cover!(true, "reach_end");
     }
 
-    //@ob id=L2.record.ext.tc19 flags=noassert props=C09,C11,C19 tier=quick kind=harness fns=downlink/extended/update.rs:update_mt_19 draw=frame28
+    //@ob id=L2.record.ext.tc19 flags=noassert props=C09,C11,C19,C01 tier=quick kind=harness fns=downlink/extended/update.rs:update_mt_19 draw=frame28
     //@region velocity record handler on a fresh record, all frames x every subtype: vertical rate, altitude delta; subtype 1/2 (track, ground speed) decoded from this frame with the subtype's unit; subtype 3/4 heading
     #[kani::proof]
     #[kani::unwind(34)]
@@ -193,7 +193,7 @@ pub(crate) mod verif_l2_records {
         kani::cover!(true, "reach_end");
     }
 
-    //@ob id=L2.record.ext.tc20_31 flags=noassert props=C11,C19 tier=quick kind=harness fns=downlink/extended/update.rs:update_mt_20_22,downlink/extended/update.rs:update_mt_31 draw=frame28
+    //@ob id=L2.record.ext.tc20_31 flags=noassert props=C11,C19,C01 tier=quick kind=harness fns=downlink/extended/update.rs:update_mt_20_22,downlink/extended/update.rs:update_mt_31 draw=frame28
     //@region TC20-22 / TC31 record handlers on a fresh record: GNSS altitude + surveillance status; ADS-B version
     #[kani::proof]
     #[kani::unwind(34)]
